@@ -1,4 +1,5 @@
-\* quick: every rule set of <= 2 rules over 4 from-paths x 3 except lists, request paths of <= 2 segments
+\* the design as found (negative control, not run by ./check): TLC refutes SchemelessIsHTTP (`proxy / httpd:8080`) and
+\* TargetIsBasePlusStrippedPath (/%61/x%2Fy under `without /a`); every other invariant holds
 CONSTANT Spaces = {"route", "target", "query", "pool"}
 CONSTANT RouteSegs = {"a", "A", "b", "x", "..", "%2F", "%61", "", ";p"}
 CONSTANT RouteMax = 2
@@ -10,8 +11,8 @@ CONSTANT Route3 = FALSE
 CONSTANT TargetSegs = {"a", "A", "b", "..", "%2F", "%61", "", "a%20b", "%3B"}
 CONSTANT TargetMax = 2
 CONSTANT TargetSegs3 = {}
-CONSTANT WithoutRaw = "decoded"
-CONSTANT SchemeTest = "scheme"
+CONSTANT WithoutRaw = "bytes"
+CONSTANT SchemeTest = "prefix"
 SPECIFICATION Spec
 INVARIANT TypeOK
 INVARIANT RuleChoiceIsLongestMatch
@@ -24,5 +25,4 @@ INVARIANT NoPathEscape
 INVARIANT PoolIsToThenUpstream
 INVARIANT SchemelessIsHTTP
 INVARIANT RefusedOnlyForCause
-INVARIANT Emit
 CHECK_DEADLOCK FALSE
